@@ -32,7 +32,7 @@ Want(p) == Props = "ALL" \/ \E k \in 1..(Len(Props) - 2) : SubSeq(Props, k, k + 
 Judge(c, hist, S) ==
   LET cfg == c.cfg
   IN \E res \in {[C01 |-> IF Want("C01") THEN P!Failing(P!C01_Clauses(cfg, S)) ELSE {},
-              C02 |-> IF Want("C02") THEN P!Failing(P!C02_Clauses(cfg, S)) ELSE {},
+              C02 |-> IF Want("C02") THEN P!Failing(P!C02_Clauses(cfg, S)) \cup (IF c.flowrun THEN {} ELSE {"flowRunConvenience"}) ELSE {},
               C03 |-> IF Want("C03") THEN P!Failing(P!C03_Clauses(cfg, S)) \cup (IF c.flowrun THEN {} ELSE {"flowRunConvenience"}) ELSE {},
               C04 |-> IF Want("C04") THEN P!Failing(P!C04_Clauses(cfg, S)) \cup (IF c.flowrun THEN {} ELSE {"flowRunConvenience"}) ELSE {},
               C05 |-> IF Want("C05") THEN P!Failing(P!C05_Clauses(cfg, S)) \cup (IF c.flowrun THEN {} ELSE {"flowRunConvenience"}) ELSE {},
